@@ -594,3 +594,30 @@ def flag_decision(site, inst, thr, measured):
     return bool(mm._site_IDs_in_consideration_for_flag.get(site.get_id(), False)
                 or mm._site_IDs_in_follow_up_queue.get(site.get_id(), False)
                 or len(mm._candidates_for_flags) > 0 or mm._follow_up_schedule.calls)
+
+
+def flag_decision_stationary(site, small_thr, large_thr, measured, delay=0):
+    """real stationary `SiteLevelMethod.update` (-> update_stationary -> update_candidates_for_flags) on
+    the first detection record of a site: is the site queued for follow-up in that same update?"""
+    from sortedcontainers import SortedList
+
+    mm = SiteLevelMethod.__new__(SiteLevelMethod)
+    mm._name = "FIX"
+    mm._deployment_type = pdc.Deployment_Types.STATIONARY
+    mm._reporting_delay = 0
+    mm._inst_threshold = float("inf")
+    mm._small_window, mm._large_window = 3, 10
+    mm._small_window_threshold, mm._large_window_threshold = small_thr, large_thr
+    mm._redund_filter = pdc.Method_Params.ROLLING_AVRG
+    mm._detection_count = 0
+    mm._first_candidate_date = None
+    mm._delay = delay
+    mm._proportion = 1.0
+    mm._threshold_first = True
+    mm._candidates_for_flags = SortedList(key=lambda x: -x.rate_at_site)
+    mm._site_IDs_in_consideration_for_flag = {}
+    mm._site_IDs_in_follow_up_queue = {site.get_id(): False}
+    mm._follow_up_schedule = _FUStub()
+    mm._detection_records = {SIM_START: [DetectionRecord(site_id=site.get_id(), site=site, rate_detected=measured)]}
+    stats = mm.update(SIM_START)
+    return bool(mm._follow_up_schedule.calls), stats.sites_flagged
